@@ -29,6 +29,58 @@ def cases(tier, seed):
             for ms in itertools.combinations_with_replacement(range(len(grid)), n):
                 pts = [list(grid[i]) for i in ms]
                 yield {"pts": pts, "grid": name, "seeds": b["seeds"]}
+    for shape in BIG + ([(5003, 40, 50), (100003, 2, 40)] if tier == "thorough" else []):
+        for dt in ("float64", "float32"):
+            yield {"shape": list(shape), "dtype": dt}
+
+
+BIG = [(1101, 10, 100), (2501, 40, 50), (701, 64, 100), (40001, 2, 60), (9001, 3, 33)]
+
+
+def _big(case):
+    """Shapes whose n_samples x n_clusters x n_features product passes 2^20 .. 2^23 (block-wise distance computations only
+    split beyond such sizes), row counts that are no multiple of any power of two."""
+    import numpy
+    import warnings
+    from mlinsights.mlmodel import KMeansL1L2
+    warnings.simplefilter("ignore")
+    n, d, k = case["shape"]
+    viol = []
+    rs = numpy.random.RandomState(n + d + k)
+    X = numpy.round(rs.uniform(-4, 4, size=(n, d)), 2).astype(case["dtype"])
+    cond = "init=random,distinct points,n*k*d=2^%d" % int(numpy.log2(n * d * k))
+
+    def bad(kind, msg):
+        viol.append({"sig": "KMeansL1L2|%s|%s" % (kind, cond), "msg": "%s shape=%r dtype=%s" % (msg, case["shape"], case["dtype"])})
+    try:
+        m = KMeansL1L2(n_clusters=k, norm="L1", init="random", n_init=1, max_iter=3, random_state=0).fit(X)
+        C = numpy.asarray(m.cluster_centers_, dtype=numpy.float64)
+        lab = numpy.asarray(m.labels_)
+        D = numpy.empty((n, k))
+        X64 = X.astype(numpy.float64)
+        for j in range(k):
+            D[:, j] = numpy.abs(X64 - C[j]).sum(axis=1)
+        tol = 1e-6 if case["dtype"] == "float64" else 1e-3
+        own = D[numpy.arange(n), lab]
+        if lab.shape != (n,) or lab.min() < 0 or lab.max() >= k:
+            bad("L1 labels invalid", "")
+        elif (own > D.min(axis=1) + tol).any():
+            w = numpy.nonzero(own > D.min(axis=1) + tol)[0]
+            bad("L1 label is not a nearest centre", "%d of %d training points, first row %d" % (len(w), n, w[0]))
+        if abs(float(m.inertia_) - D.min(axis=1).sum()) > tol * n:
+            bad("L1 inertia_ != sum of distances to nearest centre", "%r vs %r" % (m.inertia_, D.min(axis=1).sum()))
+        if (C < X64.min(axis=0) - 1e-9).any() or (C > X64.max(axis=0) + 1e-9).any() or not numpy.isfinite(C).all():
+            bad("L1 centre outside data range", "")
+        pl = numpy.asarray(m.predict(X))
+        if (D[numpy.arange(n), pl] > D.min(axis=1) + tol).any():
+            w = numpy.nonzero(D[numpy.arange(n), pl] > D.min(axis=1) + tol)[0]
+            bad("L1 predict not a nearest centre", "%d of %d rows, first row %d" % (len(w), n, w[0]))
+        T = numpy.asarray(m.transform(X))
+        if T.shape != D.shape or numpy.abs(T - D).max() > tol * d:
+            bad("L1 transform != Manhattan distances", "max diff %r" % (numpy.abs(T - D).max() if T.shape == D.shape else T.shape,))
+    except Exception as e:
+        bad("L1 fit raises %s" % type(e).__name__, str(e)[:200])
+    return {"viol": viol, "nontrivial": True, "states": 1, "transitions": n, "outcome": ("big",) + tuple(case["shape"])}
 
 
 def _man(A, B):
@@ -37,6 +89,8 @@ def _man(A, B):
 
 
 def run_case(case):
+    if "shape" in case:
+        return _big(case)
     import numpy
     import warnings
     from sklearn.cluster import KMeans
